@@ -28,6 +28,9 @@ func (p *c20) noItemSearches(x *res, adapter string) {
 		native.AddMatcher("tbe", interpreter.ExpressionTypeFilter, "my own filter, not an expression!", yes)
 		native.AddMatcher("tbe", interpreter.ExpressionTypeKey, "h = :h", yes)
 		native.AddMatcher("tbf", interpreter.ExpressionTypeFilter, "a = :b AND", yes) // another table: never answers for tbe
+		// a registration for ANOTHER table whose name continues with what looks like the start of an expression:
+		// however the registry joins table and text, ("tbe|x", "y = :b") is not ("tbe", "x|y = :b")
+		native.AddMatcher("tbe|x", interpreter.ExpressionTypeFilter, "y = :b", yes)
 		nc.setInterp(native)
 		if nativeOn {
 			nc.activate()
@@ -50,6 +53,7 @@ func (p *c20) noItemSearches(x *res, adapter string) {
 			{"unregistered reserved word in a filter on an empty table", adapt.Op{Kind: adapt.OpScan, Table: "tbe", Filter: "name = :b", Values: val.Item{":b": val.Str("x")}}, false, false},
 			{"unregistered malformed key condition, empty table", adapt.Op{Kind: adapt.OpQuery, Table: "tbe", KeyCnd: "h = = :h", Values: val.Item{":h": val.Str("nobody")}}, false, false},
 			{"unregistered well-formed filter on an empty table", adapt.Op{Kind: adapt.OpScan, Table: "tbe", Filter: "a = :b", Values: val.Item{":b": val.Str("x")}}, true, true},
+			{"table and text that concatenate like another registration", adapt.Op{Kind: adapt.OpScan, Table: "tbe", Filter: "x|y = :b", Values: val.Item{":b": val.Str("x")}}, false, false},
 			{"text registered for ANOTHER table only", adapt.Op{Kind: adapt.OpScan, Table: "tbe", Filter: "a = :b AND", Values: val.Item{":b": val.Str("x")}}, false, false},
 		}
 		for _, pr := range probes {
